@@ -656,8 +656,9 @@ impl Mgr {
 struct SeqOut { failures: Vec<(Option<&'static str>, String)>, obs: Vec<Vec<i128>>, dangling_shadow: bool, cross_shadow: bool }
 
 /// Runs a sequential history on a fresh thread (fresh thread-local cache).
-fn run_seq(ops: &[SOp]) -> SeqOut {
+fn run_seq(ops: &[SOp], leave: bool) -> SeqOut {
     let ops = ops.to_vec();
+    let d_before = verif_sched::dangling_releases();
     let h = std::thread::spawn(move || {
         let mut out = SeqOut { failures: vec![], obs: vec![], dangling_shadow: false, cross_shadow: false };
         let mut mgrs: Vec<Option<Mgr>> = vec![];
@@ -743,8 +744,10 @@ fn run_seq(ops: &[SOp]) -> SeqOut {
                         for (_, inf) in held.iter() { if inf.kind < 2 && mgrs[inf.issuer].is_none() { out.dangling_shadow = true; } }
                         for c in cached.iter().flatten() { if c.kind < 2 && mgrs[c.issuer].is_none() { out.dangling_shadow = true; } }
                         held.clear();
-                        cached = [None, None];
-                        helper.clear_thread_cache();
+                        if !leave {
+                            cached = [None, None];
+                            helper.clear_thread_cache();
+                        }
                     }
                 }
             });
@@ -783,7 +786,7 @@ fn run_seq(ops: &[SOp]) -> SeqOut {
                         out.failures.push((cls, format!("(iii) step {}: manager {} reports {} = {} but {} tokens handed out by it are held (at most {} more cached)", step, m, name, c, handed[k], maybe[k])));
                     }
                 }
-                if step == nops && (ar != 0 || aw != 0) {
+                if step == nops && !leave && (ar != 0 || aw != 0) {
                     out.failures.push((None, format!("(iii) manager {} at quiescence: active_readers = {}, active_writers = {}", m, ar, aw)));
                 }
             }
@@ -791,24 +794,33 @@ fn run_seq(ops: &[SOp]) -> SeqOut {
             if out.failures.len() > 6 { break; }
         }
         drop(held);
-        helper.clear_thread_cache();
+        if !leave { helper.clear_thread_cache(); }
         drop(mgrs);
-        out
+        // with `leave`, tokens still in the thread-local cache are released by its destructor at thread
+        // exit, after every manager of the history is gone
+        (out, verif_sched::dangling_releases())
     });
     match h.join() {
-        Ok(o) => o,
+        Ok((mut o, d_in)) => {
+            if verif_sched::dangling_releases() != d_in {
+                o.failures.push((None, "(iv) at thread exit a cached token was released after the manager that issued it had been destroyed".into()));
+            }
+            let _ = d_before;
+            o
+        }
         Err(_) => SeqOut { failures: vec![(None, "history thread panicked".into())], obs: vec![], dangling_shadow: false, cross_shadow: false },
     }
 }
 
-fn seq_case_json(ops: &[SOp]) -> Value {
-    json!({"cell": "seq", "ops": ops.iter().map(|o| o.json()).collect::<Vec<_>>()})
+fn seq_case_json(ops: &[SOp], leave: bool) -> Value {
+    json!({"cell": "seq", "leave": leave, "ops": ops.iter().map(|o| o.json()).collect::<Vec<_>>()})
 }
 
 impl Ctx {
-    fn seq(&mut self, ops: &[SOp], to_coq: bool) {
-        let o = run_seq(ops);
-        let cj = seq_case_json(ops);
+    fn seq(&mut self, ops: &[SOp], leave: bool, to_coq: bool) {
+        let o = run_seq(ops, leave);
+        let cj = seq_case_json(ops, leave);
+        if leave { self.sum.dist("seq_histories_leaving_tokens_to_the_thread_exit_destructor"); }
         let nm = ops.iter().filter(|x| matches!(x, SOp::NewTm(_) | SOp::NewVm(_))).count();
         self.sum.eval("seq", &cj.to_string(), nm >= 2 && ops.len() >= 5);
         if o.dangling_shadow { self.sum.dist("seq_histories_releasing_after_manager_drop"); }
@@ -819,7 +831,7 @@ impl Ctx {
         if (to_coq || !o.failures.is_empty()) && self.shards.len() < self.coq_budget && !o.failures.iter().any(|f| f.1.contains("panic")) {
             let mut c = cj.clone();
             c["impl_obs"] = json!(o.obs.iter().map(|r| r.iter().map(|x| x.to_string()).collect::<Vec<_>>()).collect::<Vec<_>>());
-            let term = format!("inr ([{}], [{}])",
+            let term = format!("inr ({}, [{}], [{}])", coq_bool(leave),
                 ops.iter().map(|x| x.coq()).collect::<Vec<_>>().join("; "),
                 o.obs.iter().map(|r| coq_z_list(r.iter().cloned())).collect::<Vec<_>>().join("; "));
             self.shards.push(term, c);
@@ -956,8 +968,9 @@ pub fn run(args: &Args) {
     for k in 0..nseq {
         let mut r = Rng::new(cx.rng.next());
         let ops = rand_seq(&mut r);
-        cx.seq(&ops, k % 8 == 0);
-        if k < 2 { cx.sum.sample(seq_case_json(&ops)); }
+        let leave = r.chance(1, 4);
+        cx.seq(&ops, leave, k % 8 == 0);
+        if k < 2 { cx.sum.sample(seq_case_json(&ops, leave)); }
     }
     cx.sum.dist_max("controlled_runs", cx.runs);
     cx.sum.dist_max("harness_wall_ms", t0.elapsed().as_millis() as u64);
@@ -968,7 +981,7 @@ pub fn run(args: &Args) {
 fn run_case(cx: &mut Ctx, c: &Value) {
     if c["cell"].as_str() == Some("seq") {
         let ops: Vec<SOp> = c["ops"].as_array().map(|a| a.iter().filter_map(SOp::parse).collect()).unwrap_or_default();
-        cx.seq(&ops, true);
+        cx.seq(&ops, c["leave"].as_bool().unwrap_or(false), true);
     } else {
         replay_conc(cx, c);
     }
